@@ -38,6 +38,7 @@ type Section struct {
 }
 
 var (
+	lastFlush = time.Now()
 	mu        sync.Mutex
 	prop      string
 	sections  = map[string]*Section{}
@@ -134,7 +135,22 @@ func hash(s string) uint64 {
 
 // Case records one evaluated case. desc is the canonical descriptor of the case
 // (used for distinctness and as the sample); classes are label counters.
+// maybeFlush keeps the stats file fresh so that a process that dies (a crash in the library is
+// itself a finding) still leaves its coverage counts behind.
+func maybeFlush() {
+	mu.Lock()
+	due := time.Since(lastFlush) > 15*time.Second
+	if due {
+		lastFlush = time.Now()
+	}
+	mu.Unlock()
+	if due {
+		Flush()
+	}
+}
+
 func (s *Section) Case(nontrivial bool, desc string, classes ...string) {
+	defer maybeFlush()
 	s.mu.Lock()
 	defer s.mu.Unlock()
 	s.evals++
